@@ -14,12 +14,18 @@
    Defects (named ways this design goes wrong; TLC must reject each):
      "OffByOne"       need-more test passes one byte early (`<` vs `<=`)
      "DrainHeader"    Drain of the header length only
-     "ConsumePartial" a need-more answer drops the bytes seen so far *)
+     "ConsumePartial" a need-more answer drops the bytes seen so far
+     "PrefaceFlagEarly" the connection preface is marked as read before it was complete
+   Connection preface (HTTP/2: the fixed 24-byte client preface, protocol/http2/codec.go serverCodec.Decode +
+   MFramer.ReadPreface): when Preface > 0 the stream starts with a unit of that many bytes which the decoder
+   must consume exactly once before the first frame; a need-more answer on it consumes nothing and changes
+   no decoder state (`pre`). Its model bytes are the zones first byte | middle | last byte - 1 | last byte. *)
 EXTENDS Integers, Sequences, FiniteSets, TLC, Json
 
 CONSTANTS MaxFrames,  \* frames per stream: 1..MaxFrames
           Lens,       \* admissible frame lengths (model bytes), all >= H
           H,          \* bytes needed before the frame length is known (fixed header)
+          Preface,    \* length of the connection preface (0 = the protocol has none)
           Defects
 
 VARIABLES frames,  \* sequence of frame lengths: the input stream
@@ -27,8 +33,9 @@ VARIABLES frames,  \* sequence of frame lengths: the input stream
           cons,    \* bytes drained from the read buffer so far (buffer = stream[cons+1 .. fed])
           out,     \* what was handed to the stream layer: sequence of [start, len] byte ranges
           pc,      \* "read" | "dispatch" | "error"
+          pre,     \* decoder flag: connection preface "pending" | "done"
           cuts     \* history: offsets at which the stream was cut (for case emission)
-vars == <<frames, fed, cons, out, pc, cuts>>
+vars == <<frames, fed, cons, out, pc, pre, cuts>>
 
 (* ---------------- stream geometry (shared with the trace spec) ---------------- *)
 RECURSIVE Off(_, _)
@@ -54,42 +61,53 @@ ConsumedOK(us, f, c) == c = Off(us, Complete(us, f))
 (* ---------------- behaviour ---------------- *)
 Init == /\ \E n \in 1..MaxFrames : frames \in [1..n -> Lens]
         /\ fed = 0 /\ cons = 0 /\ out = <<>> /\ pc = "read" /\ cuts = <<>>
+        /\ pre = IF Preface > 0 THEN "pending" ELSE "done"
 
-Feed(n) == /\ pc = "read" /\ fed + n <= Total(frames)
+StreamLen == Preface + Total(frames)
+FFed  == IF fed > Preface THEN fed - Preface ELSE 0      \* bytes of the frame part read so far
+FCons == cons - Preface                                  \* bytes of the frame part drained so far
+
+Feed(n) == /\ pc = "read" /\ fed + n <= StreamLen
            /\ fed' = fed + n /\ cuts' = Append(cuts, fed + n)
            /\ pc' = "dispatch"
-           /\ UNCHANGED <<frames, cons, out>>
+           /\ UNCHANGED <<frames, cons, out, pre>>
 
 Buffered == fed - cons
 
 Decode == /\ pc = "dispatch"
-          /\ LET i == FrameAt(frames, cons) IN
+          /\ LET i == FrameAt(frames, FCons) IN
              IF Buffered <= 0 THEN                         \* buffer empty: Dispatch returns
-                  pc' = "read" /\ UNCHANGED <<cons, out>>
+                  pc' = "read" /\ UNCHANGED <<cons, out, pre>>
+             ELSE IF pre = "pending" THEN
+                  IF Buffered < Preface THEN               \* need more: nothing consumed, no state changed
+                       /\ pc' = "read" /\ UNCHANGED <<cons, out>>
+                       /\ pre' = IF "PrefaceFlagEarly" \in Defects THEN "done" ELSE "pending"
+                  ELSE /\ cons' = cons + Preface /\ pre' = "done" /\ pc' = "dispatch" /\ out' = out
              ELSE IF i = 0 THEN                            \* decoder looks at bytes that are no frame start
-                  pc' = "error" /\ UNCHANGED <<cons, out>>
+                  pc' = "error" /\ UNCHANGED <<cons, out, pre>>
              ELSE LET L == frames[i]
                       need == IF "OffByOne" \in Defects THEN L - 1 ELSE L
                   IN IF Buffered < H \/ Buffered < need THEN    \* need more data
-                          /\ pc' = "read" /\ out' = out
+                          /\ pc' = "read" /\ out' = out /\ pre' = pre
                           /\ cons' = IF "ConsumePartial" \in Defects THEN fed ELSE cons
-                     ELSE /\ out' = Append(out, [start |-> cons, len |-> L])
+                     ELSE /\ out' = Append(out, [start |-> FCons, len |-> L])
                           /\ cons' = cons + (IF "DrainHeader" \in Defects THEN H ELSE L)
-                          /\ pc' = "dispatch"
+                          /\ pc' = "dispatch" /\ pre' = pre
           /\ UNCHANGED <<frames, fed, cuts>>
 
-Next == Decode \/ \E n \in 1..Total(frames) : Feed(n)
+Next == Decode \/ \E n \in 1..StreamLen : Feed(n)
 Spec == Init /\ [][Next]_vars
 
 (* ---------------- properties ---------------- *)
 InOrderOnce == InOrderOnceOK(frames, out)
-NoEarly     == NoEarlyOK(frames, fed, out)
-Prompt      == pc = "read" => PromptOK(frames, fed, out)
-Consumed    == pc = "read" => ConsumedOK(frames, fed, cons)
+NoEarly     == NoEarlyOK(frames, FFed, out)
+Prompt      == pc = "read" => PromptOK(frames, FFed, out)
+Consumed    == pc = "read" => IF fed < Preface THEN cons = 0 ELSE ConsumedOK(frames, FFed, FCons)
+PrefaceOnce == (pre = "pending" => cons = 0 /\ out = <<>>) /\ (pre = "done" => cons >= Preface)
 NoError     == pc # "error"
 \* segmentation independence: at the end of the stream the output is the input, whatever the cuts were
-SameForEveryCut == (pc = "read" /\ fed = Total(frames)) => out = [i \in 1..Len(frames) |-> Range(frames, i)]
+SameForEveryCut == (pc = "read" /\ fed = StreamLen) => out = [i \in 1..Len(frames) |-> Range(frames, i)]
 
 (* one CASE per complete chunking of a frame vector *)
-EmitCase == (pc = "read" /\ fed = Total(frames)) => PrintT(<<"CASE", ToJson([frames |-> frames, cuts |-> cuts])>>)
+EmitCase == (pc = "read" /\ fed = StreamLen) => PrintT(<<"CASE", ToJson([frames |-> frames, cuts |-> cuts, pre |-> Preface])>>)
 ====
